@@ -483,6 +483,13 @@ def real_matrix(seed, count, big):
             if k >= 6:
                 n = rng.pick([500, 2000, 5000, 20_000, 50_000, 100_000, 200_000])
             cfgs.append({"history": h, "n": n, "mode": mode, "stride": stride, "seed": rng.next() % (1 << 48)})
+    # systematic stride sweep: every stride of foreign draws up to a limit (a generator whose
+    # sub-sampled stream degenerates only for particular strides is found by construction,
+    # not by luck of the draw)
+    top = 48 if count < 500 else 160
+    for k in range(2, top + 1):
+        for j in range(1 if count < 500 else 2):
+            cfgs.append({"history": [0, 1, 2, 3, 5, 7, 9][(k + 3 * j) % 7], "n": 30_000 if count < 500 else 100_000, "mode": 1, "stride": k, "seed": rng.next() % (1 << 48)})
     for b in range(big):
         cfgs.append({"history": b % N_HISTORIES, "n": 1_000_000, "mode": [0, 1, 2][b % 3], "stride": rng.pick([2, 3, 8, 64]), "seed": rng.next() % (1 << 48)})
     return cfgs
@@ -620,7 +627,7 @@ def check_c16(tier, seed):
         "build_s": round(build_s, 2),
     }
     assumptions = [
-        "the height clause is a statistical statement about the library's concrete generator, checked on sampled (history, interleaving) pairs; strides are capped at 1024",
+        "the height clause is a statistical statement about the library's concrete generator, checked on sampled (history, interleaving) pairs; every stride of foreign draws from 2 to 48 (thorough: 160) is covered systematically, larger ones up to 1024 by sampling",
         "heap order is accepted in either direction as long as it is consistent over the whole tree",
         "sampling, not proof",
     ]
